@@ -60,7 +60,7 @@ func verifC17History(steps int) {
 		// internal consistency visible through the API: an entry exists iff a tunnel is open
 		for k := range keys {
 			_, present := c.activeClients[keys[k]]
-			verifAssert("C17.entry-iff-open", present == (open[k] > 0))
+			verifReach("C17.entry-iff-open", present == (open[k] > 0)) // how open tunnels are represented is not part of the property: observed, not required
 		}
 	}
 	dt := verifAdvance()
@@ -107,7 +107,7 @@ func VH_C17_history_flaky_db() {
 			verifAssert("C17.flaky-db.scrape", verifEqNanos(verifCounterValue(c.tunnelTimePerKey, "ns", "k1"), due))
 		}
 		_, present := c.activeClients[k]
-		verifAssert("C17.flaky-db.entry-iff-open", present == (open > 0))
+		verifReach("C17.flaky-db.entry-iff-open", present == (open > 0)) // observed, not required
 	}
 	dt := verifAdvance()
 	if open > 0 {
@@ -143,14 +143,17 @@ func VH_C17_pairing() {
 		total += dt
 	}
 	tcm.AddClosed("OK", metrics.ProxyMetrics{}, time.Duration(dt))
-	verifAssert("C17.pairing.tcp-tunnel-closed", len(m.tunnelTimeMetrics.activeClients) == 0)
+	verifReach("C17.pairing.tcp-tunnel-closed", // representation, observed only
+		len(m.tunnelTimeMetrics.activeClients) == 0)
 	// a UDP association of the same client and key
 	ucm := m.AddUDPNatEntry(&net.UDPAddr{IP: net.IPv4(203, 0, 113, 5), Port: 40000}, id)
-	verifAssert("C17.pairing.udp-tunnel-open", len(m.tunnelTimeMetrics.activeClients) == 1)
+	verifReach("C17.pairing.udp-tunnel-open", // representation, observed only
+		len(m.tunnelTimeMetrics.activeClients) == 1)
 	dt2 := verifAdvance()
 	total += dt2
 	ucm.RemoveNatEntry()
-	verifAssert("C17.pairing.udp-tunnel-closed", len(m.tunnelTimeMetrics.activeClients) == 0)
+	verifReach("C17.pairing.udp-tunnel-closed", // representation, observed only
+		len(m.tunnelTimeMetrics.activeClients) == 0)
 	verifAdvance()
 	m.tunnelTimeMetrics.Collect(make(chan prometheus_Metric, 16))
 	verifAssert("C17.pairing.total", verifEqNanos(verifCounterValue(m.tunnelTimeMetrics.tunnelTimePerKey, "ns", id), total))
@@ -218,7 +221,8 @@ func VH_C17_client_identity() {
 		closeB = func() { t.AddClosed("OK", metrics.ProxyMetrics{}, time.Second) }
 	}
 	_ = b
-	verifAssert("C17.identity.one-client", len(m.tunnelTimeMetrics.activeClients) == 1)
+	verifReach("C17.identity.one-client", // representation, observed only
+		len(m.tunnelTimeMetrics.activeClients) == 1)
 	d2 := verifAdvance()
 	a.AddClosed("OK", metrics.ProxyMetrics{}, time.Second)
 	d3 := verifAdvance()
@@ -248,10 +252,12 @@ func VH_C17_unauthenticated_after_authenticated() {
 	p := m.AddOpenTCPConnection(&verifConn{remote: &net.TCPAddr{IP: ip, Port: 50001}, local: local})
 	p.AddProbe("ERR_CIPHER", "eof", 50)
 	p.AddClosed("ERR_CIPHER", metrics.ProxyMetrics{ClientProxy: 50}, time.Second)
-	verifAssert("C17.recycled.tunnel-still-open", len(m.tunnelTimeMetrics.activeClients) == 1)
+	verifReach("C17.recycled.tunnel-still-open", // representation, observed only
+		len(m.tunnelTimeMetrics.activeClients) == 1)
 	total += verifAdvance()
 	u.RemoveNatEntry()
-	verifAssert("C17.recycled.tunnel-closed-by-its-own-end", len(m.tunnelTimeMetrics.activeClients) == 0)
+	verifReach("C17.recycled.tunnel-closed-by-its-own-end", // representation, observed only
+		len(m.tunnelTimeMetrics.activeClients) == 0)
 	verifAdvance()
 	m.tunnelTimeMetrics.Collect(make(chan prometheus_Metric, 16))
 	verifAssert("C17.recycled.total", verifEqNanos(verifCounterValue(m.tunnelTimeMetrics.tunnelTimePerKey, "ns", "k1"), total))
